@@ -135,29 +135,42 @@ fn parse_error_class(msg: &str) -> String {
     s
 }
 
-/// every non empty subset of at most `k` quirks, smallest first
-fn subsets(k: usize) -> Vec<Vec<Quirk>> {
-    let mut out: Vec<Vec<Quirk>> = vec![];
-    for q in ALL_QUIRKS.iter() {
-        out.push(vec![*q]);
+/// smallest set of deviations under which `ok` holds: the empty set, single deviations, pairs,
+/// then all of them together reduced greedily (1-minimal)
+pub fn explain(ok: &mut dyn FnMut(&[Quirk]) -> bool) -> Option<Vec<Quirk>> {
+    if ok(&[]) {
+        return Some(vec![]);
     }
-    if k >= 2 {
-        for (i, a) in ALL_QUIRKS.iter().enumerate() {
-            for b in ALL_QUIRKS.iter().skip(i + 1) {
-                out.push(vec![*a, *b]);
+    for q in ALL_QUIRKS.iter() {
+        if ok(&[*q]) {
+            return Some(vec![*q]);
+        }
+    }
+    for (i, a) in ALL_QUIRKS.iter().enumerate() {
+        for b in ALL_QUIRKS.iter().skip(i + 1) {
+            if ok(&[*a, *b]) {
+                return Some(vec![*a, *b]);
             }
         }
     }
-    if k >= 3 {
-        for (i, a) in ALL_QUIRKS.iter().enumerate() {
-            for (j, b) in ALL_QUIRKS.iter().enumerate().skip(i + 1) {
-                for c in ALL_QUIRKS.iter().skip(j + 1) {
-                    out.push(vec![*a, *b, *c]);
+    // all deviations at once (with and without the tolerated ordering reading), then drop what is not needed
+    for start in [ALL_QUIRKS.to_vec(), ALL_QUIRKS.iter().copied().filter(|q| *q != Quirk::OrderRaw).collect()] {
+        if ok(&start) {
+            let mut set = start;
+            let mut i = 0;
+            while i < set.len() {
+                let mut t = set.clone();
+                t.remove(i);
+                if ok(&t) {
+                    set = t;
+                } else {
+                    i += 1;
                 }
             }
+            return Some(set);
         }
     }
-    out
+    None
 }
 
 fn features(e: &REnt, depth: usize, o: &mut Outcome) {
@@ -346,6 +359,33 @@ pub fn run_gen(case: &GenCase, replay: bool) -> Outcome {
             if l.displayed() == 0 {
                 o.label("d:empty-root");
             }
+            o.label(match l.displayed() {
+                0 => "d:rows-0",
+                1 => "d:rows-1",
+                2..=4 => "d:rows-2-4",
+                _ => "d:rows-5+",
+            });
+            if table == 0 {
+                o.label("d:empty-table");
+            } else if l.displayed() == 0 {
+                // why is it empty?
+                let mut probe = r.clone();
+                probe.skip = 0;
+                let a = ev.eval_ent(&probe, None);
+                probe.paging = None;
+                let b = ev.eval_ent(&probe, None);
+                probe.filters.clear();
+                let c = ev.eval_ent(&probe, None);
+                o.label(if a.rows.len() > 0 {
+                    "d:empty-by-skip"
+                } else if b.rows.len() > 0 {
+                    "d:empty-by-paging"
+                } else if c.rows.len() > 0 {
+                    "d:empty-by-filters"
+                } else {
+                    "d:empty-by-required-reference"
+                });
+            }
         }
     }
 
@@ -403,14 +443,16 @@ pub fn one_line(s: &str) -> String {
 }
 
 fn classify(w: &World, rq: &RQuery, real: &J, m: &Mismatch, text: &str, o: &mut Outcome) -> Vec<Quirk> {
-    for set in subsets(3) {
+    let found = explain(&mut |set: &[Quirk]| {
         let ev = Evaluator {
             schema: &w.schema,
             store: &w.store,
-            quirks: Quirks(set.clone()),
+            quirks: Quirks(set.to_vec()),
         };
-        let exp = ev.eval_query(rq);
-        if matches(real, &exp, "$").is_ok() {
+        matches(real, &ev.eval_query(rq), "$").is_ok()
+    });
+    match found {
+        Some(set) => {
             for q in &set {
                 if *q == Quirk::OrderRaw {
                     // DESIGN: ordering by a field name sorts the stored value; rows lacking the field
@@ -431,13 +473,15 @@ fn classify(w: &World, rq: &RQuery, real: &J, m: &Mismatch, text: &str, o: &mut 
                     ),
                 );
             }
-            return set;
+            set
+        }
+        None => {
+            o.label("unexplained");
+            o.violation(
+                format!("unexplained:{}", m.kind),
+                format!("at {}: {} | query: {}", m.path, m.detail, one_line(text)),
+            );
+            vec![]
         }
     }
-    o.label("unexplained");
-    o.violation(
-        format!("unexplained:{}", m.kind),
-        format!("at {}: {} | query: {}", m.path, m.detail, one_line(text)),
-    );
-    vec![]
 }
